@@ -301,12 +301,10 @@ def readU16At (r : Bytes) (off : Nat) : Res Nat :=
   | _ => .panic "slice index out of range"
 
 /-- the `for i in 0..count` loop of `parse_merge_cells` with `k` iterations left; `i` and the offset
-    `2 + i * 8` are `u16` -/
+    `2 + i * 8` are `usize` (since the robustness fix; they were `u16` in the pinned code) -/
 def mcLoop (r : Bytes) : Nat → Nat → Res (List Rect)
   | 0, _ => .ok []
   | k + 1, i =>
-    if i * 8 ≥ U16 ∨ 2 + i * 8 ≥ U16 then .panic "u16 overflow"
-    else
       let off := 2 + i * 8
       match readU16At r off with
       | .ok rf =>
@@ -324,11 +322,15 @@ def mcLoop (r : Bytes) : Nat → Nat → Res (List Rect)
         | .err e => .err e | .panic e => .panic e | .outOfFuel => .outOfFuel
       | .err e => .err e | .panic e => .panic e | .outOfFuel => .outOfFuel
 
-/-- `parse_merge_cells(r, &mut merge_cells)`: the regions this record appends -/
+/-- `parse_merge_cells(r, &mut merge_cells)`: the regions this record appends. A record shorter than its
+    count field, or than the `2 + 8·count` bytes the count announces, is `XlsError::Len` (checks added by the
+    robustness fix; the pinned code slice-indexed and panicked). -/
 def parseMergeCells (r : Bytes) : Res (List Rect) :=
-  match readU16At r 0 with
-  | .ok count => mcLoop r count 0
-  | .err e => .err e | .panic e => .panic e | .outOfFuel => .outOfFuel
+  if r.length < 2 then .err "Len:merge cells"
+  else
+    match readU16At r 0 with
+    | .ok count => if r.length < 2 + 8 * count then .err "Len:merge cells" else mcLoop r count 0
+    | .err e => .err e | .panic e => .panic e | .outOfFuel => .outOfFuel
 
 /-- the MERGEDCELLS (0x00E5) and EOF (0x000A) arms of the sheet record loop of `parse_workbook` over
     the `(type, payload)` records of a sheet substream. Every other record type is skipped here: their
